@@ -167,6 +167,9 @@ Definition chk_round (c : main_case) : Z :=
   let '(_, _, _, t) := c in
   zlen (filter (fun x => let '(m, e, d) := x in negb (nearest_double m e d)) t).
 
+(* both in one pass over a case file (parsing the cases dominates the run time): code = chk_main + 4 * chk_round *)
+Definition chk_both (c : main_case) : Z := chk_main c + 4 * chk_round c.
+
 (* ---- spec validation: nearest_double against fractions.Fraction / float() of CPython ---- *)
 Definition near_case := (Z * Z * dbl * bool)%type.
 Definition chk_near (c : near_case) : Z :=
